@@ -89,7 +89,7 @@ func randFmt(r *rand.Rand) fmtOpts {
 	}
 	f.HTML, f.JS, f.PRS = b(4), b(4), b(4)
 	f.ROR = b(8)
-	return f
+	return f.withInit()
 }
 
 // randCalls builds a mostly well-formed program: it tracks the nesting itself so that
